@@ -60,7 +60,7 @@ def make_specs(prop, tier, base_seed, nruns):
         directed = [{"ops": ops} for ops in (fn(tier) if fn.__code__.co_argcount else fn())]
     for i in range(nruns):
         spec = {"prop": prop, "tier": tier, "index": i, "run_seed": derive_seed(base_seed, prop, i),
-                "mode": "gen", "engine": cfg["engine"], "timeout": cfg.get("timeout", 300)}
+                "mode": "gen", "engine": cfg["engine"], "timeout": max(1200, cfg.get("timeout", 1200))}
         if i < len(directed):
             spec["directed"] = directed[i]
         specs.append(spec)
